@@ -33,10 +33,9 @@ mod methods {
     }
 
     fn string(arg: Duration) -> String {
-        format!(
-            "{}s",
-            arg.num_nanoseconds().unwrap() as f64 / 1_000_000_000.0
-        )
+        // total nanoseconds do not fit an i64 for durations beyond ~292 years
+        let nanos = arg.num_seconds() as i128 * 1_000_000_000 + arg.subsec_nanos() as i128;
+        format!("{}s", nanos as f64 / 1_000_000_000.0)
     }
 
     fn string(arg: CelValue) -> CelResult<String> {
